@@ -123,4 +123,14 @@ def executeSeq (t : Tree) (periodic : Bool) (flags upper : Nat) : List Call :=
   (if hasFlag flags flagL2P then l2pAll t upper else []) ++
   (if hasFlag flags flagP2P then p2pAll t.D periodic t.H t.leafGroups else [])
 
+/-- `TbfOpenmpAlgorithm::execute`: the same wrapper calls in *submission* order (P2P is submitted
+    before L2P; P2PInGroup and P2PInner of a group share one task) -/
+def executeOmp (t : Tree) (periodic : Bool) (flags upper : Nat) : List Call :=
+  (if hasFlag flags flagP2M then p2mAll t upper else []) ++
+  (if hasFlag flags flagM2M then m2mAll t upper else []) ++
+  (if hasFlag flags flagM2L then m2lAll t periodic upper else []) ++
+  (if hasFlag flags flagL2L then l2lAll t upper else []) ++
+  (if hasFlag flags flagP2P then p2pAll t.D periodic t.H t.leafGroups else []) ++
+  (if hasFlag flags flagL2P then l2pAll t upper else [])
+
 end Tbfmm
